@@ -66,6 +66,23 @@ func (node *CacheNode) WriteChecksum(checksum string) error {
 	return os.WriteFile(node.checksumPath(), []byte(checksum), 0o644)
 }
 
+// ReadResolvedLocation returns the location the cached copy was downloaded
+// from (see [CacheNode.WriteResolvedLocation]), or "" if it was not recorded.
+func (node *CacheNode) ReadResolvedLocation() string {
+	b, _ := os.ReadFile(node.resolvedLocationPath())
+	return string(b)
+}
+
+// WriteResolvedLocation records the location the source was actually
+// downloaded from. It differs from the source's location when a default
+// Taskfile name was appended to a directory-style entrypoint.
+func (node *CacheNode) WriteResolvedLocation(location string) error {
+	if err := node.CreateCacheDir(); err != nil {
+		return err
+	}
+	return os.WriteFile(node.resolvedLocationPath(), []byte(location), 0o644)
+}
+
 func (node *CacheNode) CreateCacheDir() error {
 	if err := os.MkdirAll(node.dir, 0o755); err != nil {
 		return err
@@ -100,6 +117,10 @@ func (node *CacheNode) checksumPath() string {
 
 func (node *CacheNode) timestampPath() string {
 	return node.filePath("timestamp")
+}
+
+func (node *CacheNode) resolvedLocationPath() string {
+	return node.filePath("location")
 }
 
 func (node *CacheNode) filePath(suffix string) string {
